@@ -243,7 +243,7 @@ theorem joins_append (o₁ o₂ : List Out) : joins (o₁ ++ o₂) = joins o₁ 
 
 theorem joinKeep_spec (s : Sess) :
     (joinKeep s).1.searching = false ∧ (joinKeep s).1.pos = s.pos ∧
-    (joinKeep s).1.artifact = (s.artifact || s.searching) ∧
+    (joinKeep s).1.artifact = (if s.searching then s.searchOk else s.artifact) ∧
     (joinKeep s).2 = (if s.searching then [Out.joinRunning] else []) := by
   unfold joinKeep
   cases hs : s.searching <;> simp [hs]
